@@ -103,6 +103,7 @@ pub struct RunOut {
     pub hash: u64,
     pub lifetimes: u64,
     pub harness_panic: bool,
+    pub known: Vec<String>,
 }
 
 pub struct Opts {
@@ -138,6 +139,7 @@ pub fn execute(plan: &Plan, engine: Engine, crash_seed: u64, images: usize, only
         hash: ex.oplog_hash,
         lifetimes: ex.lifetimes.len() as u64,
         harness_panic: false,
+        known: ex.known.clone(),
     };
     if r.is_err() {
         out.harness_panic = true;
@@ -313,13 +315,16 @@ pub fn replay_file(path: &str) -> i32 {
 }
 
 /// known findings file: /verif/known_findings.json (read-only at run time)
-pub fn known_findings() -> Vec<serde_json::Value> {
-    let p = std::env::var("VERIF_KNOWN").unwrap_or("/verif/known_findings.json".into());
-    std::fs::read_to_string(p)
-        .ok()
-        .and_then(|t| serde_json::from_str::<serde_json::Value>(&t).ok())
-        .and_then(|v| v.get("findings").and_then(|f| f.as_array().cloned()))
-        .unwrap_or_default()
+pub fn known_findings() -> &'static Vec<serde_json::Value> {
+    static K: std::sync::OnceLock<Vec<serde_json::Value>> = std::sync::OnceLock::new();
+    K.get_or_init(|| {
+        let p = std::env::var("VERIF_KNOWN").unwrap_or("/verif/known_findings.json".into());
+        std::fs::read_to_string(p)
+            .ok()
+            .and_then(|t| serde_json::from_str::<serde_json::Value>(&t).ok())
+            .and_then(|v| v.get("findings").and_then(|f| f.as_array().cloned()))
+            .unwrap_or_default()
+    })
 }
 
 pub fn known_finding(v: &Viol) -> Option<String> {
@@ -374,6 +379,9 @@ pub fn explore(o: &Opts) -> i32 {
                     let mut p = plan.clone();
                     p.steps.truncate(3);
                     sm.push(json!({"run": i, "cfg": p.cfg, "first_steps": p.steps, "total_steps": plan.steps.len()}));
+                }
+                for k in &out.known {
+                    known.lock().unwrap().insert(k.clone());
                 }
                 if let Some((v, pt)) = out.viol {
                     if let Some(k) = known_finding(&v) {
